@@ -188,6 +188,15 @@ def static_state_rules(ctx, fx, scope):
                      % (b.name.split('asefile::')[-1], '; '.join(sorted(set(probs))) if probs else 'both sides fall through to the same continuation, nothing but the record is produced'),
                      tm.get('span'), key=ctx.key(b.name, 'S5', 'log-level', ''))
     ctx.extra['log_level_branches'] = nlog
+    # results must not depend on how much stack the calling thread happens to have (or on whether the optimiser turned a recursion into
+    # a loop): no recursive cycle in the accessor / loader cones other than write_cel's bounded link step (seed C16-n made is_visible
+    # recursive again)
+    g_ = CG.get(fx)
+    for scc in g_.sccs({b_.path for b_ in scope}):
+        names_ = [fx.by_path[p_].name for p_ in scc]
+        okr = names_ == ['asefile::file::AsepriteFile::write_cel']
+        ctx.inst('S5', 'recursion ' + ','.join(n_.split('::')[-1] for n_ in names_), okr, 'recursive cycle %s: %s' % (names_, 'the bounded link step (depth <= 2, C05 U5)' if okr else
+                 'depth grows with the input: the outcome depends on the stack of the calling thread'), None, key='S5|recursion|' + ','.join(names_))
     ctx.extra['ambient_calls'] = amb
     ctx.extra['hash_iterations'] = hit
 
